@@ -1317,7 +1317,11 @@ func Open(vm *VM, sourceSink, mode, stream, options Term, k Cont, env *Env) *Pro
 	}
 
 	s := Stream{vm: vm, mode: streamMode}
-	switch f, err := openFile(name, int(s.mode), 0644); {
+	flag := int(s.mode)
+	if s.mode == ioModeWrite {
+		flag |= os.O_TRUNC // 7.10.1.1: a sink that already exists is emptied; only append keeps what's there.
+	}
+	switch f, err := openFile(name, flag, 0644); {
 	case err == nil:
 		if s.mode == ioModeRead {
 			s.source = f
